@@ -18,6 +18,7 @@ EXPLANATION = (
     "contains the schema's range, where a missing bound means at least the i64 limit on that side; "
     "(D4, closed table) every literal arm of the string-format table is a documented format; the table has one unguarded arm "
     "per format."
+    " D7 and the general part of D5 are decided by evaluating the fragment over the boundary scenarios of the bounds (rules/minirust.py), whatever its shape; the closure-shaped path explanations (D2/D3) are required only when the search is not evaluable."
 )
 ASSUMPTIONS = ["schemars represents bounds as f64; precision loss above 2^53 is not decided"]
 
@@ -173,6 +174,89 @@ def run(facts, rep, tier):
                         if " Or " in cs and " Lt " in cs and " Gt " in cs and nm[3] in cs and nm[4] in cs and "InvalidValue" in src(x["then"]):
                             ok5 = True
                     rep.ob("C10.D5", "format-default-range", ok5, "`if default < imin || default > imax { return Err(InvalidValue) }`" if ok5 else "the default is not range-checked against the format's limits with an InvalidValue error", n.get("sp"))
+    # D5a by evaluation: on the by-format path (a recognised format, bounds inside the format's limits, no multipleOf) the
+    # function answers at once; a default is admitted only inside the *schema's* range - the stated bounds where there are
+    # some, the format's limits otherwise
+    import minirust as mr0
+    from lib import top_stmts as _tops
+    tl0 = [n for n, _ in nodes(h["body"], "let") if n.get("init") is not None and n["pat"].get("k") == "bind" and contains_node(n["init"], table)]
+    byf = [st for st in _tops(h) if tl0 and reads(st, tl0[0]["pat"]["name"]) and st.get("k") == "if" and any(x.get("k") == "field" and x.get("name") == "default" for x, _ in walk(st))]
+    fparam = mparam0 = None
+    for i_, t_ in enumerate(c.fns[h["fn"]]["inputs"]):
+        if i_ < len(h.get("params", [])) and h["params"][i_].get("k") == "bind":
+            if "Metadata" in t_:
+                mparam0 = h["params"][i_]["name"]
+            elif t_.replace("&", "").strip() == "std::option::Option<std::string::String>":
+                fparam = h["params"][i_]["name"]
+    mult = None
+    for n, _ in nodes(h["body"], "let"):
+        if n["pat"].get("k") == "tuple" and len(n["pat"]["pats"]) == 3 and [p_.get("name") for p_ in n["pat"]["pats"]][:2] == [MIN, MAX]:
+            mult = n["pat"]["pats"][2].get("name")
+    if byf and fparam and mparam0 and mult:
+        st = byf[0]
+        m0 = mr0.Machine(c, hooks={"as_f64": lambda mach, v: mr0.some(v[1]) if isinstance(v, tuple) and v and v[0] == "json" else mr0.NONE,
+                                   "new_integer": lambda mach, t: ("int", t)})
+        bad = None
+        bad_ty = None
+        nsc = 0
+        try:
+            rows_v = m0.ev(tl0[0]["init"], mr0.Env())
+            for row in rows_v:
+                fmt, ty, nz, flo, fhi = row[1]
+                for lo in (None, flo, flo + 1.0, 1.0 if flo <= 1.0 <= fhi else None):
+                    for hi in (None, fhi, fhi - 1.0, 100.0 if flo <= 100.0 <= fhi else None):
+                        if lo is not None and hi is not None and lo > hi:
+                            continue
+                        elo = lo if lo is not None else flo
+                        ehi = hi if hi is not None else fhi
+                        for x in sorted({elo - 1.0, elo, elo + 1.0, ehi - 1.0, ehi, ehi + 1.0, flo, fhi, 0.0}):
+                            meta = mr0.some(("struct", "Metadata", {"default": mr0.some(("json", x))}))
+                            env = mr0.Env(init={tl0[0]["pat"]["name"]: rows_v, fparam: mr0.some(fmt), mparam0: meta, MIN: mr0.some(lo) if lo is not None else mr0.NONE,
+                                                MAX: mr0.some(hi) if hi is not None else mr0.NONE, mult: mr0.NONE})
+                            m0.fuel = 100000
+                            try:
+                                m0.ev(st, env)
+                                continue  # fell through to the general path
+                            except mr0.Return as r_:
+                                v_ = r_.value
+                            nsc += 1
+                            accepted = isinstance(v_, tuple) and v_ and v_[0] == "Ok"
+                            if accepted:
+                                # the type answered on this path contains the schema's range; NonZero only without zero
+                                tv = v_[1][1][0] if isinstance(v_[1], tuple) and v_[1] and v_[1][0] == "tup" else None
+                                tn = tv[1] if isinstance(tv, tuple) and tv and tv[0] == "int" else None
+                                if tn in INT_LIMITS:
+                                    tlo, thi = INT_LIMITS[tn]
+                                else:
+                                    mz_ = re.fullmatch(r"::std::num::NonZeroU(8|16|32|64)", tn or "")
+                                    tlo, thi = (1.0, float(2 ** int(mz_.group(1)) - 1)) if mz_ else (None, None)
+                                if tlo is None:
+                                    bad_ty = "format %s: the by-format path answers `%s`, which is not a type of the table" % (fmt, tn)
+                                elif tlo > elo or thi < ehi:
+                                    bad_ty = "format %s with minimum %s / maximum %s: the by-format path answers `%s` (%g..=%g), which cannot represent every admitted value of %g..=%g" % (
+                                        fmt, "absent" if lo is None else "%g" % lo, "absent" if hi is None else "%g" % hi, tn, tlo, thi, elo, ehi)
+                            inside = elo <= x <= ehi
+                            if accepted and not inside:
+                                bad = "format %s with minimum %s / maximum %s: a default of %g is accepted although the schema admits only %g..=%g" % (
+                                    fmt, "absent" if lo is None else "%g" % lo, "absent" if hi is None else "%g" % hi, x, elo, ehi)
+                            elif not accepted and inside:
+                                bad = "format %s with minimum %s / maximum %s: a default of %g is rejected although it lies inside %g..=%g" % (
+                                    fmt, "absent" if lo is None else "%g" % lo, "absent" if hi is None else "%g" % hi, x, elo, ehi)
+                            if bad:
+                                break
+                        if bad:
+                            break
+                    if bad:
+                        break
+                if bad:
+                    break
+        except mr0.Unknown as e_:
+            bad = "not evaluable (%s)" % e_
+        rep.ob("C10.D2", "format-path-type-contains-range", bad_ty is None, "on the by-format path the answered type contains the schema's range in every scenario" if bad_ty is None else bad_ty, st.get("sp"))
+        rep.ob("C10.D5", "format-path-default-range", bad is None, "evaluated on %d scenarios: on the by-format path a default is accepted exactly inside the schema's range" % nsc if bad is None else
+               "on the path that answers from the format's row: %s (a default outside the admitted range must be reported)" % bad, st.get("sp"))
+    rep.floor("C10.D5", "by-format statement with a default check", len(byf), 1)
+
     # D5b: the general default check, decided by evaluation (any shape): the statement that compares the schema's default
     # with the effective bounds must answer InvalidValue exactly when the default lies outside them, and no statement after
     # it may still assign the bounds
@@ -190,7 +274,9 @@ def run(facts, rep, tier):
                 if l.get("k") == "path" and l.get("res") == "local" and l["path"] in (MIN, MAX):
                     out.append((x, xa))
         return out
-    checks = [st for st in tops if ".default" in src(st) and "InvalidValue" in src(st) and (reads(st, MIN) or reads(st, MAX))
+    def _mentions(st_, word):
+        return any((x.get("k") == "field" and x.get("name") == word) or (x.get("k") == "path" and str(x.get("path", "")).endswith("::" + word)) for x, _ in walk(st_))
+    checks = [st for st in tops if _mentions(st, "default") and _mentions(st, "InvalidValue") and (reads(st, MIN) or reads(st, MAX))
               and not assigns_bounds(st) and not (tname and reads(st, tname))]
     ok5b = False
     if rep.floor("C10.D5", "general default range check", len(checks), 1):
